@@ -10,7 +10,9 @@ shutil.copy(os.path.join(sd, "patch%s.diff" % n), os.path.join(d, "patch.diff"))
 shutil.copy(os.path.join(sd, "demo%s.py" % n), os.path.join(d, "demo.py"))
 if os.path.exists(os.path.join(sd, "notes.md")):
     shutil.copy(os.path.join(sd, "notes.md"), os.path.join(d, "author_notes.md"))
+import subprocess
 meta = {
+    "applies_at": subprocess.run(["git", "-C", "/repo", "rev-parse", "--short", "HEAD"], capture_output=True, text=True).stdout.strip(),
     "seed_id": sid, "breaks_property": prop, "origin": "independent sub-agent given only the property text and a scratch worktree",
     "needs_to_manifest": needs,
     "confirmed_by_me": {
